@@ -659,6 +659,22 @@ func init() {
 	}
 	intrinsics["os.Getenv"] = func(fr *frame, args []value) value { return "" }
 	intrinsics["runtime.Gosched"] = nop
+	// sync/atomic.Value (implemented with unsafe in the runtime): a cell holding an interface value
+	intrinsics["(*sync/atomic.Value).Store"] = func(fr *frame, args []value) value {
+		p := args[0].(*value)
+		st := append(structure(nil), (*p).(structure)...)
+		st[0] = args[1]
+		*p = st
+		return nil
+	}
+	intrinsics["(*sync/atomic.Value).Load"] = func(fr *frame, args []value) value {
+		p := args[0].(*value)
+		v := (*p).(structure)[0]
+		if v == nil {
+			return iface{}
+		}
+		return v
+	}
 	// GODEBUG settings: the default (empty) value everywhere
 	intrinsics["(*internal/godebug.Setting).Value"] = func(fr *frame, args []value) value { return "" }
 	intrinsics["(*internal/godebug.Setting).IncNonDefault"] = nop
